@@ -35,6 +35,7 @@ fn valid_ref(c: &Candle) -> (bool, bool) {
 
 fn check_candle(c: &Candle, pcs: &[V], r: &mut Report) {
 	r.eval(1);
+	r.case(&[18, crate::reg::candle_hash(c)]);
 	let (o, h, l, cl, v) = (c.open, c.high, c.low, c.close, c.volume);
 	// single-operation formulas: bit-exact
 	let tp = (h + l + cl) / 3.0;
@@ -300,6 +301,7 @@ fn source_text(ctx: &Ctx, r: &mut Report) {
 	for (name, want) in names {
 		for variant in 0..40 {
 			r.eval(1);
+			r.case_named(name, &[183, variant as u64]);
 			let mut t: String = name.chars().map(|ch| if rng.chance(0.5) { ch.to_ascii_uppercase() } else { ch }).collect();
 			let ws = [" ", "\t", "\n", "  ", ""];
 			if variant % 2 == 1 {
@@ -331,6 +333,7 @@ fn source_text(ctx: &Ctx, r: &mut Report) {
 	let accepted: Vec<&str> = names.iter().map(|x| x.0).collect();
 	for t in bad {
 		r.eval(1);
+		r.case_named(&t, &[181]);
 		let canon = t.trim().to_ascii_lowercase();
 		let is_name = accepted.contains(&canon.as_str());
 		match guard(|| Source::from_str(&t)) {
@@ -362,6 +365,7 @@ fn ma_text(ctx: &Ctx, r: &mut Report) {
 	for (ki, kind) in MA_KINDS.iter().enumerate() {
 		for &n in &lens {
 			r.eval(1);
+			r.case(&[182, ki as u64, n]);
 			let t = format!("{kind}-{n}");
 			match guard(|| MA::from_str(&t)) {
 				Ok(Ok(ma)) => {
@@ -409,6 +413,7 @@ fn ma_text(ctx: &Ctx, r: &mut Report) {
 	}
 	for t in bad {
 		r.eval(1);
+		r.case_named(&t, &[181]);
 		// the accepted language: kind '-' [+]digits with value <= PeriodType::MAX
 		let is_valid = match t.split_once('-') {
 			Some((k, n)) => {
